@@ -121,6 +121,36 @@ def run(ctx):
                         real.append(op)
                 f.write(json.dumps({"corpus": "mix", "cap": [1, 2, 50][(ti + pi) % 3], "ttl": 1, "ops": real}) + "\n")
                 nt += 1
+    # directed histories longer than the bounded model reaches in the quick tier: switch the cache off, replace / invalidate,
+    # switch it on again; several entries across a replacement; expiry; the same under the monitored entry point
+    S = lambda k, a=0, b=0: ["search", k, a, b]
+    directed = [
+        [S(1), ["enable", False], ["update", 2], ["enable", True], S(1)],
+        [S(1), ["enable", False], ["invalidate"], ["enable", True], S(1), S(2)],
+        [S(1), S(3), S(1, 1), ["update", 2], S(1), S(3), S(1, 1)],
+        [S(1), S(3), ["invalidate"], S(3), S(1)],
+        [S(1), ["vanish"], S(1), S(2)],
+        [S(1), ["enable", False], S(1), ["update", 2], S(1), ["enable", True], S(1), ["update", 1], S(1)],
+        [S(1), S(1, 1), S(1, 0, 1), S(1, 1, 1), ["enable", False], ["update", 2], ["enable", True], S(1, 1, 1), S(1, 0, 1), S(1, 1), S(1)],
+    ]
+    with open(tf, "a") as f:
+        for di, ops in enumerate(directed):
+            for pi, (fa, fb) in enumerate(pairs):
+                if q and (di + pi) % 2:
+                    continue
+                real = []
+                qset, over = QSETS[(di + pi) % len(QSETS)]
+                for op in ops:
+                    if op[0] == "search":
+                        real.append(["search", qset[op[1]], dict(real_opts(op[2], op[3], fa, fb), **over), (di + pi + len(real)) % 3 == 0])
+                    elif op[0] == "vanish":
+                        real += [["tick"], ["tick"], ["cleanup"]]
+                    elif op[0] == "update":
+                        real.append(["update", op[1] + 2 * ((di + pi + len(real)) % 4 + (0 if op[1] == 2 else 1))])
+                    else:
+                        real.append(op)
+                f.write(json.dumps({"corpus": "mix", "cap": [1, 2, 50][(di + pi) % 3 if di != 6 else 2], "ttl": 1, "ops": real}) + "\n")
+                nt += 1
     tr1 = os.path.join(ctx.work, "cache-tours.ndjson")
     i1 = ctx.run_vh(["cache-tours", "-in", tf, "-out", tr1], timeout=1500)
     ok1, rej1 = ctx.validate_traces(tr1, "TraceCacheLayer", TRACE_CFG)
